@@ -298,7 +298,7 @@ def orbit_registry_extension(ck, tier, seed):
     ck.add_tlc(r, "OrbitRegistry (extension): three moons, two values (complete graph under VIEW)")
     if not r.ok:
         raise MachineryError("OrbitRegistry: %s violated" % r.violated)
-    zero = [a for a, (d, t) in r.coverage.items() if t == 0]
+    zero = [a for a, (d, t) in r.coverage.items() if t == 0 and a != "ReAdd"]     # ReAdd is switched off in this configuration
     if zero:
         raise MachineryError("vacuity: OrbitRegistry actions never taken: %s" % zero)
     wd = scratch("orsim")
@@ -306,13 +306,33 @@ def orbit_registry_extension(ck, tier, seed):
     nb = 16 if tier == "quick" else 160
     run_tlc("OrbitRegistry", "OrbitRegistry_sim.cfg", workdir=wd, workers=1, timeout=600, depth=16,
             simulate="file=%s,num=%d" % (os.path.join(wd, "sim", "b"), nb), seed=seed + 3)
+    # the same registry with add_tidal_world repeated for a world that is already there (ReAdd, as found: a second slot, the two
+    # look-up tables part ways): the structural invariants still hold, NoDuplicates / LookupAgree are the named deviation
+    rr = run_tlc("OrbitRegistry", "OrbitRegistry_readd.cfg", coverage=True, timeout=600, workers=8)
+    ck.add_tlc(rr, "OrbitRegistry (extension): re-adding a world, two moons, three slots (complete graph under VIEW)")
+    if not rr.ok:
+        raise MachineryError("OrbitRegistry_readd: %s violated" % rr.violated)
+    if any(t == 0 for a, (d, t) in rr.coverage.items()):
+        raise MachineryError("vacuity: OrbitRegistry_readd actions never taken")
+    ra = run_tlc("OrbitRegistry", "OrbitRegistry_asfound_readd.cfg", timeout=300, workers=4, expect_violation=True)
+    if ra.ok or ra.violated not in ("NoDuplicates", "LookupAgree"):
+        raise MachineryError("OrbitRegistry_asfound_readd: expected NoDuplicates / LookupAgree to be violated, got %s" % ra.violated)
+    os.makedirs(os.path.join(wd, "simr"))
+    run_tlc("OrbitRegistry", "OrbitRegistry_readd_sim.cfg", workdir=wd, workers=1, timeout=600, depth=16,
+            simulate="file=%s,num=%d" % (os.path.join(wd, "simr", "b"), nb), seed=seed + 5)
     behs = []
-    for f in sorted(os.listdir(os.path.join(wd, "sim"))):
-        b = tlaval.parse_sim_file(os.path.join(wd, "sim", f))
-        if b:
-            behs.append([[list(st["last"]), {k: st[k] for k in ("order", "raiser", "ecc", "sma")}] for _a, _g, st in b])
+    n_readd = 0
+    for sub in ("sim", "simr"):
+        for f in sorted(os.listdir(os.path.join(wd, sub))):
+            b = tlaval.parse_sim_file(os.path.join(wd, sub, f))
+            if b:
+                behs.append([[list(st["last"]), {k: st[k] for k in ("order", "raiser", "ecc", "sma", "byInst", "byName")}] for _a, _g, st in b])
+                n_readd += sum(1 for x in behs[-1] if x[0][0] == "ReAdd")
     if not behs:
         raise MachineryError("no OrbitRegistry behaviours")
+    if n_readd == 0:
+        raise MachineryError("vacuity: no ReAdd step in the simulated OrbitRegistry behaviours")
+    ck.notes["orbit_registry_readd"] = {"readd_steps_replayed": 2 * n_readd, "named_deviation": "OrbitRegistry_asfound_readd.cfg violates %s" % ra.violated}
     groups = [{"orbit": "base", "behaviours": behs}, {"orbit": "physics", "behaviours": behs}]
 
     def drive(grps, sabotage=False):
